@@ -47,13 +47,18 @@ theorem C09_constructed_default (c : Cache.Ctor) (now : Int) :
       match c with
       | .newOpts (some d) _ _ _ => if d < 1 then -2000000000 else d
       | .newOpts none _ _ _ => -2000000000
-      | .newDefault d _ _ => if d < 1 then -2000000000 else d := by
+      | .newDefault d _ _ => if d < 1 then -2000000000 else d
+      -- the default set twice in one option list: the later option wins, whatever the earlier one was
+      | .newOptsOver _ d _ _ _ => if d < 1 then -2000000000 else d := by
   cases c with
   | newOpts d i cb m =>
     cases d <;> cases i <;> cases cb <;> cases m <;>
       simp [Cache.construct, Cache.newXsyncMap, Gen.newXsyncMap_dflt, Gen.newXsyncMap_hasCb, Gen.newXsyncMap_janitor, Gen.NewDefault_cfg, Gen.New_cfg, Gen.WithDefaultExpiration, Gen.WithCleanupInterval, Gen.WithEvictedCallback, Gen.WithMinCapacity, List.foldl, configDefault_spec, Gen.DefaultConfig_, Gen.NoExpiration, TTL.NoExpiration]
   | newDefault d i cb =>
     simp [Cache.construct, Cache.newXsyncMap, Gen.newXsyncMap_dflt, Gen.newXsyncMap_hasCb, Gen.newXsyncMap_janitor, Gen.NewDefault_cfg, Gen.New_cfg, Gen.WithDefaultExpiration, Gen.WithCleanupInterval, Gen.WithEvictedCallback, Gen.WithMinCapacity, List.foldl, configDefault_spec, TTL.NoExpiration]
+  | newOptsOver b d i cb m =>
+    cases i <;> cases cb <;> cases m <;>
+      simp [Cache.construct, Cache.newXsyncMap, Gen.newXsyncMap_dflt, Gen.newXsyncMap_hasCb, Gen.newXsyncMap_janitor, Gen.NewDefault_cfg, Gen.New_cfg, Gen.WithDefaultExpiration, Gen.WithCleanupInterval, Gen.WithEvictedCallback, Gen.WithMinCapacity, List.foldl, configDefault_spec, Gen.DefaultConfig_, Gen.NoExpiration, TTL.NoExpiration]
 
 /-- **re-arming**: after `Set`, `GetAndSet`, `GetAndRefresh` (hit), a storing `Compute`, and a storing
 `GetOrSet`/`GetOrCompute`, the stored instant is `expiration d` of the default and clock *at that call* -/
